@@ -208,7 +208,26 @@ Definition insert_tokens (d : doc) (items : list item) (index : Z) (vs : list do
       end
   end.
 
-(* _del_tokens(start, stop) *)
+(* `not token.raw_text.strip()`: the text is empty or made of characters str.strip() takes away (str.isspace) *)
+Definition py_isspace (c : Z) : bool :=
+  ((9 <=? c) && (c <=? 13)) || ((28 <=? c) && (c <=? 32)) || (c =? 133) || (c =? 160) || (c =? 5760)
+  || ((8192 <=? c) && (c <=? 8202)) || (c =? 8232) || (c =? 8233) || (c =? 8239) || (c =? 8287) || (c =? 12288).
+Definition blank_tok (t : tok) : bool := forallb py_isspace (ttext t).
+
+(* fields._touches(token, store.get_next, 0) (as Fields.touches, which comes later in the import order): walk on
+   from `token` (excluded), skip the tokens without text; the nearest token with text shows, as its first
+   character, something other than a blank or a bracket (" \t\r\n{}()").  `l` = the tokens after `token`. *)
+Definition self_delim (c : Z) : bool :=
+  (c =? 32) || (c =? 9) || (c =? 13) || (c =? 10) || (c =? 123) || (c =? 125) || (c =? 40) || (c =? 41).
+Fixpoint touches_next (l : list tok) : bool :=
+  match l with
+  | [] => false
+  | t :: r => match ttext t with [] => touches_next r | c :: _ => negb (self_delim c) end
+  end.
+
+(* _del_tokens(start, stop) -- as repaired by /verif/fixes/repeated-remove-keeps-separator-when-glued.patch: in the
+   else-branch the blank tokens in front of the removed items stay when an item follows that is written right
+   against the removed one (`1 "s"2`) *)
 Definition del_tokens (d : doc) (items : list item) (start stop : Z) : doc * res unit :=
   if stop <=? start then (d, Ok tt)
   else if (start =? 0) && (stop <? zlen items) then
@@ -234,7 +253,25 @@ Definition del_tokens (d : doc) (items : list item) (start stop : Z) : doc * res
             match list_get_int items (stop - 1) with
             | Err e => (d, Err e)
             | Ok it_l =>
-                match st_remove t (snd it_l) d with Ok d' => (d', Ok tt) | Err e => (d, Err e) end
+                let rm (f : Z) := match st_remove f (snd it_l) d with Ok d' => (d', Ok tt) | Err e => (d, Err e) end in
+                match list_get_int items start with        (* item_first = items[start].first_token *)
+                | Err e => (d, Err e)
+                | Ok it_s =>
+                    if (stop <? zlen items) && negb (t =? fst it_s) then
+                      match split_at (snd it_l) d with     (* _touches: store.get_next(last_token) *)
+                      | None => (d, Err ValueError)
+                      | Some (_, _, after) =>
+                          if touches_next after then
+                            match st_get_prev (fst it_s) d with
+                            | Err e => (d, Err e)
+                            | Ok None => (d, Err ValueError)       (* store.iter(first_token, None) *)
+                            | Ok (Some g) =>
+                                rm (if forallb blank_tok (st_iter t g d) then fst it_s else t)
+                            end
+                          else rm t
+                      end
+                    else rm t
+                end
             end
         end
     end.
